@@ -137,6 +137,12 @@ func (ti *tmidx) Shutdown() {
 	ti.ci.close()
 }
 
+// KnownRecordsInfo returns what GetRecordsInfo returns together with the number of the chunk's records the
+// indexer has been notified about, both taken at the same moment
+func (ti *tmidx) KnownRecordsInfo(src string, cid chunk.Id) (RecordsInfo, uint32, error) {
+	return ti.ci.knownRecordsInfo(src, cid)
+}
+
 // OnWrite notifies the indexer about new data added
 func (ti *tmidx) OnWrite(src string, firstRec, lastRec uint32, rInfo RecordsInfo) error {
 	return ti.ci.onWrite(src, firstRec, lastRec, rInfo)
